@@ -47,6 +47,7 @@ def run(P, C, tier):
     C.rule("R5", "references: the source row's room is bound to the synchronised room and replacing another author's reference needs the all-rows right")
     C.rule("R6", "in the actor arms a row goes to the write list only on the accepting edge; the write message carries only the filtered list")
     C.rule("R7", "the previous version used for rights and for the storage slot is looked up by (id, entity)")
+    C.rule("R8", "a deletion record is applied only when it belongs to the room being synchronised")
     # ---------------- R1
     sites = P.call_sites(r"GraphDatabaseService::(add_nodes|add_edges|delete_nodes|delete_edges|add_room_node|add_peer_nodes)$")
     n1 = 0
@@ -332,3 +333,30 @@ def run(P, C, tier):
                 C.ob("R6", var + ":write-list", src is not None and mir.has_call(src, fnre) is not None, pm.loc(bi), "WriteMessage::%s carries the result of %s" % (var, fnre.strip("$")))
     except mir.MissingAnchor as e:
         C.anchor_missing("R5", "process_message", e)
+
+    # ---------------- R8 deletion records are bound to the synchronised room
+    try:
+        sd = P.body("LocalPeerService::synchronise_day::{closure#0}")
+        C.saw(sd)
+        bound = {}
+        for meth in ("delete_nodes", "delete_edges"):
+            carries_room = False
+            for bi, t in sd.calls_to(r"GraphDatabaseService::%s$" % meth):
+                if any(field_path(a) == "room_id" for a in sd.call_args(bi)):
+                    carries_room = True
+            tested = False
+            for fn in ("GraphDatabase::%s::{closure#0}" % meth, "RoomAuthorisations::validate_node_deletions" if meth == "delete_nodes" else "RoomAuthorisations::validate_edge_deletions"):
+                fb = P.body(fn, required=False)
+                if fb is None:
+                    continue
+                for bi2, t2 in fb.calls_to(r"::eq$"):
+                    ps = [field_path(a) for a in fb.call_args(bi2)]
+                    if any(p.endswith("room_id") for p in ps) and any(p == "room_id" or p.endswith(".room") for p in ps):
+                        if len({p for p in ps}) == 2:
+                            tested = True
+            bound[meth] = carries_room and tested
+        C.ob("R8", "deletion-room-binding", all(bound.values()), sd.loc(),
+             "delete_nodes / delete_edges receive the verified records without the room being synchronised and no function on their path compares record.room_id with it (%s): "
+             "a relaying member can deliver validly signed deletion records of any other room in the answer for this room, and they are applied" % bound)
+    except mir.MissingAnchor as e:
+        C.anchor_missing("R8", "synchronise_day", e)
